@@ -485,11 +485,9 @@ class PulseSequence:
     @property
     def tau(self) -> Union[float, int]:
         """The duration of the pulse."""
-        if self._t is not None:
-            self._tau = self.t[-1]
-        else:
-            self._tau = self.dt.sum()
-
+        # Always the last element of t so that tau does not exceed t[-1] by rounding (dt.sum()
+        # and dt.cumsum()[-1] may differ in the last bits)
+        self._tau = self.t[-1]
         return self._tau
 
     @tau.setter
